@@ -9,7 +9,9 @@ Tokens as in `Drivers/InputRoot.lean` (bytes `x<hex>`, digest `x<hex of hash str
 * `nmerge <dig> <fault>*` with `<fault>` = `cas:<dig>` | `<mkdir|enter|symlink|create|chtimes>:<comp>(,<comp>)*`:
   `MergeDirectoryContents` into an empty directory under that oracle (`stop` = never).
   Answer: `ok <tree>` | `err:<class> <tree>` (the walker's own error, no download failed:
-  everything is determined) | `err:*` (a download failed: only "error" is determined).
+  everything is determined) | `err:* <tree>` (a download failed: "error" is determined, the tree left
+  behind is within `<tree>`: same names and kinds, nothing else) | `err:*` (a file is in the way of a
+  `Mkdir`/`Symlink`: only "error" is determined).
   `<tree>` = `[name=dir[…],name=file:<hash>:<size>:<exec>,name=sym:<target>]` sorted by name bytes.
 -/
 namespace BbRe.Drivers.NaiveDir
@@ -188,11 +190,14 @@ def step (c : CAS) (ws : List String) : CAS × String :=
   | "nmerge" :: d :: faults =>
     match parseDig d, parseFaults ⟨[], [], []⟩ faults with
     | some d, some O =>
-      let r := merge c O (fuelFor c) d []
-      (c, match r.2 with
-        | .ok => "ok " ++ showTree r.1
-        | .error none => "err:*"
-        | .error (some e) => s!"err:{showNErr e} " ++ showTree r.1)
+      let r := mergeDirIn c O (fuelFor c) d [] [] false
+      (c, match outcomeOf r with
+        | .ok => "ok " ++ showTree r.ch
+        | .error none =>
+          -- a download failed and no file is in the way of a Mkdir/Symlink: with `stop` = never this
+          -- is the largest tree any run can leave behind (the walker may notice the cancellation earlier)
+          if r.failed && r.err != some (.exist true) then "err:* " ++ showTree r.ch else "err:*"
+        | .error (some e) => s!"err:{showNErr e} " ++ showTree r.ch)
     | _, _ => (c, "bad-op")
   | _ => (c, "bad-op")
 
